@@ -194,19 +194,46 @@ structure Discrete where
 
 instance : Inhabited Discrete := ⟨⟨"", default, .fin 1⟩⟩
 
-/-! ## `Term.discretize` -/
-
 /-- `np.linspace(start, end, n + 1, endpoint=True)`: `start + i * (end - start) / n` for `i = 0 … n`
     (for `n = 0` the single point `start`) -/
 def linspace (lo hi : X Rat) (n : Nat) : Row :=
   (List.range (n + 1)).map (fun (i : Nat) =>
     if n = 0 then lo else X.add lo (X.mul (X.fin (i : Rat)) (X.div (X.sub hi lo) (X.fin (n : Rat)))))
 
-/-- a vector as a coordinate array; a value of another rank that `membership` returns is outside `discretize`'s model -/
-def coordOfNd : Nd → Coord
-  | .scalar v => .scalar v
-  | .vec l => .vec l
-  | .mat m => .row2d (m.headD [])
+/-! ## code-shaped models of `Discrete.to_xy` and `Discrete.create` -/
+
+/-- `Discrete.to_xy(x, y)`: `ValueError` for different shapes, else `array([x, y]).T` -/
+def toXy (x y : Coord) : Py.M Values := if x.shape = y.shape then stackT x y else .error .value
+
+/-- the two coordinate arrays `Discrete.create` passes to `to_xy`.  A string is split into words; a flat list gives
+    its entries at the even / odd positions; a dictionary its keys / values; a tuple is *also* a sequence, so its
+    slices are converted first (and may raise) and then replaced by `xy[0]`, `xy[1]` - for a flat tuple these are
+    its first two entries, as 0-d values; anything else leaves the two 0-d zeros -/
+def createCoords (parse : String → Py.M (X Rat)) : XY → Py.M (Coord × Coord)
+  | .str s =>
+    let l := (Py.split s).map Item.str
+    scalarOf parse (.items (evens l)) >>= fun x => scalarOf parse (.items (odds l)) >>= fun y => .ok (x, y)
+  | .seq false l =>
+    scalarOf parse (.items (evens l)) >>= fun x => scalarOf parse (.items (odds l)) >>= fun y => .ok (x, y)
+  | .seq true l =>
+    scalarOf parse (.items (evens l)) >>= fun _ => scalarOf parse (.items (odds l)) >>= fun _ =>
+    (XY.seq true l).index 0 >>= fun a => scalarOf parse a >>= fun x =>
+    (XY.seq true l).index 1 >>= fun b => scalarOf parse b >>= fun y => .ok (x, y)
+  | .pair xs ys =>
+    scalarOf parse (.nested xs) >>= fun _ => scalarOf parse (.nested ys) >>= fun _ =>
+    scalarOf parse (.items xs) >>= fun x => scalarOf parse (.items ys) >>= fun y => .ok (x, y)
+  | .dict l =>
+    scalarOf parse (.items (l.map (·.1))) >>= fun x => scalarOf parse (.items (l.map (·.2))) >>= fun y => .ok (x, y)
+  | .other => .ok (.scalar (.fin 0), .scalar (.fin 0))
+
+/-- `Discrete.create(name, xy, height)` -/
+def create (parse : String → Py.M (X Rat)) (name : String) (xy : XY) (height : X Rat) : Py.M Discrete :=
+  createCoords parse xy >>= fun c => toXy c.1 c.2 >>= fun v => .ok ⟨name, v, height⟩
+
+/-- `Term.discretize(start, end, resolution, midpoints)` of a term with the (vector) membership function `mem` -/
+def discretize (mem : Row → Py.M Coord) (name : String) (lo hi : X Rat) (resolution : Nat) (mid : Bool) : Py.M Discrete :=
+  (if mid then Py.Np.midpoints lo hi resolution else .ok (linspace lo hi resolution)) >>= fun x =>
+  mem x >>= fun y => toXy (.vec x) y >>= fun v => .ok ⟨name, v, .fin 1⟩
 
 /-! ## `Constant.membership`, `Linear.membership` -/
 
